@@ -137,3 +137,59 @@ def _ac_cap(pm, v):
 @reg("allcall.interrogator")
 def _ac_int(pm, v):
     return enc.res(pm.allcall.interrogator(hx(v)))
+
+
+# ---- ADS-B decoders (C09, C10, C13, C14) ----
+_ADSB_DEN = {
+    "velocity": [8, "ang", 1], "airborne_velocity": [8, "ang", 1], "surface_velocity": [8, "ang", 1],
+    "speed_heading": [8, "ang"], "selected_heading": "ang", "baro_pressure_setting": 5,
+    "nuc_p": [1, 2, 1, 1], "nuc_v": [1, 100, 100], "nac_v": [1, 100, 100], "nac_p": [1, 1, 1],
+    "nic_v1": [1, 2, 2], "nic_v2": [1, 2], "sil": [10 ** 7, 10 ** 7],
+    "altitude": 25000, "altitude05": 25000,
+}
+_ADSB_PLAIN = ["callsign", "category", "altitude_diff", "emergency_state", "is_emergency", "selected_altitude",
+               "target_altitude", "vertical_mode", "horizontal_mode", "selected_heading", "target_angle",
+               "baro_pressure_setting", "autopilot", "vnav_mode", "altitude_hold_mode", "approach_mode", "lnav_mode",
+               "tcas_operational", "tcas_ra", "emergency_status", "version", "nic_s", "nic_a_c", "nic_b", "nac_p",
+               "nac_v", "nuc_v", "nuc_p", "speed_heading", "oe_flag", "typecode", "df"]
+
+
+def _mk_adsb(name):
+    def f(pm, v):
+        return enc.res(getattr(pm.adsb, name)(hx(v)), _ADSB_DEN.get(name))
+    return f
+
+
+for _n in _ADSB_PLAIN:
+    CALLS.setdefault("adsb." + _n, _mk_adsb(_n))
+
+
+def _mk_vel(name):
+    def f(pm, v):
+        return enc.res(getattr(pm.adsb, name)(hx(v), source=bool(v.get("src", 0))), _ADSB_DEN[name])
+    return f
+
+
+for _n in ("velocity", "airborne_velocity", "surface_velocity"):
+    CALLS["adsb." + _n] = _mk_vel(_n)
+
+
+@reg("adsb.sil")
+def _sil(pm, v):
+    ver = v.get("version", -1)
+    return enc.res(pm.adsb.sil(hx(v), None if ver == -1 else ver), _ADSB_DEN["sil"])
+
+
+@reg("adsb.nic_v1")
+def _nic1(pm, v):
+    return enc.res(pm.adsb.nic_v1(hx(v), v.get("nics", 0)), _ADSB_DEN["nic_v1"])
+
+
+@reg("adsb.nic_v2")
+def _nic2(pm, v):
+    return enc.res(pm.adsb.nic_v2(hx(v), v.get("nica", 0), v.get("nicbc", 0)), _ADSB_DEN["nic_v2"])
+
+
+@reg("commb.cs20")
+def _cs20(pm, v):
+    return enc.res(pm.commb.cs20(hx(v)))
